@@ -409,6 +409,22 @@ class Evaluator:
                     w = x.w
                     bits = (['0'] * n + bits)[:w] if op != 'Div' else (bits[n:] + ['0'] * n)[:w]
                     return norm(bits)
+        # order comparisons of a vector with a constant: decided by the least / greatest value the vector can have
+        if op in ('Lt', 'Le', 'Gt', 'Ge') and ((isinstance(a, S) and isinstance(b, C)) or (isinstance(a, C) and isinstance(b, S))):
+            def rng(x):
+                if isinstance(x, C):
+                    return x.v, x.v
+                lo = sum(1 << i for i, bit in enumerate(x.bits) if bit == '1')
+                hi = sum(1 << i for i, bit in enumerate(x.bits) if bit != '0')
+                return lo, hi
+            (alo, ahi), (blo, bhi) = rng(a), rng(b)
+            always = {'Lt': ahi < blo, 'Le': ahi <= blo, 'Gt': alo > bhi, 'Ge': alo >= bhi}[op]
+            never = {'Lt': alo >= bhi, 'Le': alo > bhi, 'Gt': ahi <= blo, 'Ge': ahi < blo}[op]
+            if always:
+                return C(1, 1)
+            if never:
+                return C(1, 0)
+            return T
         # zero tests on vectors
         if op in ('Eq', 'Ne') and isinstance(b, C) and b.v == 0 and isinstance(a, S):
             if any(x == '1' for x in a.bits):
